@@ -28,7 +28,7 @@ use crate::de_error::budget_error;
 use crate::location::location_from_span;
 use crate::options::BudgetReportCallback;
 use crate::tags::SfTag;
-use saphyr_parser::{BufferedInput, Event, Parser, ScalarStyle, ScanError, Span, StrInput};
+use saphyr_parser::{Event, Parser, ScalarStyle, ScanError, Span, StrInput};
 use smallvec::SmallVec;
 use std::borrow::Cow;
 use std::cell::RefCell;
